@@ -2,7 +2,7 @@
 //!
 //! For every generated case the fault-free run is logged through the hook (N LP calls); then EVERY
 //! single-fault plan (call index x {Error, Unbounded, witness perturbed by 1e-6, witness moved by
-//! 1e3}) is executed, followed by random multi-fault plans and all-calls-faulty plans. Oracle under
+//! 1e3, witness moved by 1e12 (beyond what the repair heuristic can fix)}) is executed, followed by random multi-fault plans and all-calls-faulty plans. Oracle under
 //! each plan: no panic, function unchanged on thick cells, caches sound (C05 oracle), tree
 //! well-formed, removed-node audit (C03 oracle).
 
@@ -40,7 +40,7 @@ fn fault_name(f: &LpFault) -> String {
 }
 
 fn kinds() -> Vec<LpFault> {
-    vec![LpFault::Error, LpFault::Unbounded, LpFault::PerturbWitness(1e-6), LpFault::FarWitness(1e3)]
+    vec![LpFault::Error, LpFault::Unbounded, LpFault::PerturbWitness(1e-6), LpFault::FarWitness(1e3), LpFault::FarWitness(1e12)]
 }
 
 /// inputs of the reference tree on which the result must agree (thick cells only)
